@@ -195,6 +195,37 @@ def check_desc_channels(rep, s, v, base_cfg, items, hists):
     hists.append((h, hist.run_history(h)))
 
 
+PAIR_SETTINGS = ['parse_qq', 'clean_qq', 'sec_colon_required', 'sec_colon_cautious', 'ocr_scrub', 'segment', 'break_halves',
+                 'sec_within', 'default_ns', 'default_ew', 'layout']
+PAIR_TEXTS = ['T154N-R97W Sec 14 NE/4', 'T154N-R97W Sec 14: NE/4, Sec 15 W/2', 'TI54-R97 Sec 14 NE, N2, T155N-R97W NW/4 of Sec 1',
+              'T154N-R97 That part of Sec 14 lying north of the river', 'NE/4 of Sec 14, T154-R97W']
+
+
+def check_pair_channels(rep, s1, v1, s2, v2, ch1, ch2, text, items):
+    """two different settings, each delivered through its own channel ('create' | 'assign' | 'keyword'):
+    the result must be the one obtained with both in the config string at creation"""
+    ref = pytrs.PLSSDesc(text, config=','.join(['parse_qq' if 'parse_qq' not in (s1, s2) else '', one_cfg(s1, v1), one_cfg(s2, v2)]).strip(','))
+    create = [x for x in ('parse_qq' if 'parse_qq' not in (s1, s2) else '',) if x]
+    assign, kw = [], {}
+    for s, v, ch in ((s1, v1, ch1), (s2, v2, ch2)):
+        if ch == 'create':
+            create.append(one_cfg(s, v))
+        elif ch == 'assign':
+            assign.append(one_cfg(s, v))
+        else:
+            kw[s] = v
+    d = pytrs.PLSSDesc(text, config=','.join(create), wait_to_parse=True)
+    if assign:
+        # assigning a config replaces the Config object but only sets the settings it names
+        d.config = ','.join(assign)
+    d.parse(**kw)
+    if effect(ref.tracts) != effect(d.tracts):
+        rep.violation('failing-input', {'class': 'PLSSDesc', 'settings': {s1: [v1, ch1], s2: [v2, ch2]}, 'text': text,
+                                        'why': 'the effect of two settings depends on the channels they came through',
+                                        'all_in_config': effect(ref.tracts)[:3], 'mixed_channels': effect(d.tracts)[:3]})
+    items.append(descs.corr_item(text, cfg=','.join(create), wait=True, kw=kw) if not assign else descs.corr_item(text, cfg=','.join(create + assign)))
+
+
 def check_tract_channels(rep, s, v, items, hists):
     text = TRACT_TEXT[s]
     with Capture() as cap:
@@ -286,6 +317,25 @@ def run(ctx):
             rep.count()
             rep.nontrivial(('Tract', s, v))
     rep.sample({'precedence_settings_PLSSDesc': DESC_KW, 'precedence_settings_Tract': TRACT_KW}, cap=6)
+    # pairs of settings through mixed channels: the two colon modes exhaustively, other pairs sampled
+    chans = ['create', 'assign', 'keyword']
+    pair_cases = [('sec_colon_required', v1, 'sec_colon_cautious', v2, c1, c2, t)
+                  for v1 in (True, False) for v2 in (True, False) for c1 in chans for c2 in chans if c1 != c2
+                  for t in PAIR_TEXTS[:2]]
+    for i in range(ctx.budget(60, 4000)):
+        r = rng.fork(950000 + i)
+        s1 = r.choice(PAIR_SETTINGS)
+        s2 = r.choice([x for x in PAIR_SETTINGS if x != s1])
+        pair_cases.append((s1, r.choice(values_for(s1)), s2, r.choice(values_for(s2)), r.choice(chans), r.choice(chans), r.choice(PAIR_TEXTS)))
+    for (s1, v1, s2, v2, c1, c2, t) in pair_cases:
+        if 'layout' in (s1, s2) and 'assign' in (c1 if s1 == 'layout' else c2,):
+            continue      # (assigning a layout through .config after creation is covered by the single-setting check)
+        try:
+            check_pair_channels(rep, s1, v1, s2, v2, c1, c2, t, items)
+        except Exception as e:  # noqa
+            rep.violation('failing-input', {'class': 'PLSSDesc', 'settings': [s1, v1, c1, s2, v2, c2], 'text': t, 'why': f'raised {type(e).__name__}: {e}'})
+        rep.count()
+        rep.nontrivial(('pair', s1, v1, c1, s2, v2, c2, t))
     # wait_to_parse and suppress_lot_divs have no parse() keyword in PLSSDesc: config channels only
     a = pytrs.PLSSDesc('T154N-R97W Sec 14: NE/4', config='wait_to_parse')
     if len(a.tracts) != 0:
